@@ -87,6 +87,8 @@ class Script(fakenet.BaseServer):
         loc = step.get('loc', 'missing')
         if loc == 'bad':
             lines.append('Location: http://[bad/')
+        elif 'loc_text' in step:
+            lines.append('Location: ' + step['loc_text'])
         elif loc != 'missing':
             lines.append('Location: ' + (target_of(loc) if step.get('rel') else url_text(loc)))
         if step.get('setcookie'):
@@ -197,6 +199,7 @@ def project(addr, head, client_url, proxied):
             'target': blk['target'], 'method': blk['method'],
             'hosts': [v for n, v in f if n == 'host'],
             'auth': [auth_owner(v) for n, v in f if n == 'authorization'],
+            '_authv': [v for n, v in f if n == 'authorization'],
             'cookies': cookies,
             'referer': ([referer_class(v) for n, v in f if n == 'referer'] or ['none'])[0],
             'nreferer': sum(1 for n, v in f if n == 'referer'),
